@@ -30,7 +30,17 @@ Definition t_live_row (y : Z) (os : list rop) (t : tstate) : option tstate :=
            | None => None end
          end
        end.
-Inductive lop := LRow (y : anyarg) (os : list rop).
+(* the handle written back: row = get_row(y, clone=False); Row-level calls; table.set_row(y, row).
+   Beyond the table the handle is a fresh Row and this is exactly the Table-level edit; inside, the run was already edited
+   in place and set_row then writes the row with the RUN's repeat at position y. *)
+Definition t_live_row_back (y : Z) (os : list rop) (t : tstate) : option tstate :=
+  if theight t <=? y then t_edit_row y os t
+  else match t_live_row y os t with
+       | Some t1 => match row_at y t1 with Some (rep, r') => set_row y rep r' t1 | None => None end
+       | None => None end.
+Inductive lop := LRow (y : anyarg) (os : list rop) | LRowBack (y : anyarg) (os : list rop).
 Definition t_live_step (t : tstate) (o : lop) : option tstate :=
-  let '(LRow y os) := o in
-  match res_y (theight t) y with Some y' => t_live_row y' os t | None => None end.
+  match o with
+  | LRow y os => match res_y (theight t) y with Some y' => t_live_row y' os t | None => None end
+  | LRowBack y os => match res_y (theight t) y with Some y' => t_live_row_back y' os t | None => None end
+  end.
